@@ -127,13 +127,12 @@ func (r *Run) SampleEvery(idx, stride int, v func() any) {
 	if stride < 1 {
 		stride = 1
 	}
-	if (idx+r.Seed)%stride == 0 {
-		r.mu.Lock()
-		ok := len(r.samples) < r.maxSamples
-		r.mu.Unlock()
-		if ok {
-			r.Sample(v())
-		}
+	r.mu.Lock()
+	n := len(r.samples)
+	r.mu.Unlock()
+	// the first case offered is always kept, so that a stride that never hits still leaves a sample
+	if n == 0 || (n < r.maxSamples && (idx+r.Seed)%stride == 0) {
+		r.Sample(v())
 	}
 }
 
